@@ -289,6 +289,9 @@ func (e *c14env) partDecoder(u *c14unit, chunk, K int) {
 					if e.decCase(c, "fmt:"+fam+":"+kind+":"+u.Name) {
 						verdict = "accepted"
 					}
+					if verdict == "accepted" && fam == "ssz" && pre.s != "" {
+						r.Note(fmt.Sprintf("info: %s under %s: SSZ body (%s %s) is accepted behind prefix %s", u.Name, duty, kind, where, pre.name))
+					}
 					r.Count("fmt_"+fam+"_"+verdict+":prefix="+pre.name, 1)
 					r.Count("fmt_"+fam+"_"+verdict+":suffix="+suf.name, 1)
 				}
